@@ -6,7 +6,9 @@ Three computations per case, on the same inputs:
   * the Lean model  : Model/Match.lean + Model/FlowTable.lean through drv_c03            (must equal the real code)
   * the standard    : Spec/OF10Match.lean through drv_c03  ==  the short Python transcription below (`spec_*`), which is the
                       property oracle evaluated on the real code's observables.
-The header tuple given to model and spec is read off the *real* parsed packet (`phdr_of`); the parser itself is C14/C15.
+The frame description given to model and spec is read off the BYTES of the frame (Spec/OF10Frame.lean in the driver, `raw_phdr` here), not
+off the packet library's parse: what the library takes the frame for is part of what is checked.  Only incomplete frames (truncated or
+malformed headers, where the standard is silent) are described by the library's parse (`phdr_of`) and compared model-vs-code.
 """
 import struct, copy
 import common, poxenv
@@ -121,6 +123,70 @@ def spec_exact_sig(r):
 def spec_rank_sig(prio, r): return 0x10000 if spec_exact_sig(r) else prio
 
 # ------------------------------------------------------------------ the check
+# ---------------------------------------------------------------- the frame's description, from its bytes
+# Python twin of lean/PoxModel/Spec/OF10Frame.lean (`Spec.Frame.parse`): the driver parses the bytes itself for the model side, this
+# one feeds the Python transcription of the standard; the two are compared through `hdr` / `spec` on every case.
+def be(b): return int.from_bytes(b, "big")
+
+def raw_phdr(fr):
+    """OpenFlow 1.0 view of a frame, from its BYTES (Figure 4 / Table 3), independent of the packet library.
+    Returns (phdr, complete): complete = every header the types promise is there in full and well-formed (so that the standard
+    says what its fields are); otherwise phdr holds what could be read and the oracle stays silent."""
+    if len(fr) < 14: return None, False
+    ph = {"src": be(fr[6:12]), "dst": be(fr[0:6]), "typ": be(fr[12:14]), "llc": None, "vlan": None, "l3": None}
+    t, off = ph["typ"], 14
+    if t < 0x600:                                   # 802.3 length: LLC, possibly SNAP
+        if len(fr) < off + 3: return ph, False
+        dsap, ssap, ctl = fr[off], fr[off + 1], fr[off + 2]
+        if dsap == 0xaa and ssap == 0xaa and ctl == 3:
+            if len(fr) < off + 8: return ph, False
+            oui, t2 = be(fr[off + 3:off + 6]), be(fr[off + 6:off + 8])
+            ph["llc"] = [oui, t2]
+            if oui != 0: return ph, True            # SNAP of another organisation: dl_type 0x05ff, nothing behind it is looked at
+            t, off = t2, off + 8
+            if t < 0x600: return ph, False          # a length inside SNAP: not Ethernet II in 802.2, outside the transcription
+        else:
+            ph["llc"] = [None, 0xffff]
+            # I-/S-format control fields (2 bytes) and the group-bit variants of the SNAP SAPs: plain LLC for the standard, but kept out
+            return ph, not ((dsap & 0xfe) == 0xaa or (ssap & 0xfe) == 0xaa)
+    if t == 0x8100:                                 # the one tag OpenFlow 1.0 knows
+        if len(fr) < off + 4: return ph, False
+        tci, t = be(fr[off:off + 2]), be(fr[off + 2:off + 4])
+        ph["vlan"] = [tci & 0xfff, tci >> 13, t]
+        off += 4
+        if t < 0x600: return ph, False              # tag followed by a length field: outside the transcription
+    if t == 0x0800:
+        ip = fr[off:]
+        if len(ip) < 20: return ph, False
+        ver, ihl, tos, tot = ip[0] >> 4, ip[0] & 15, ip[1], be(ip[2:4])
+        fo = be(ip[6:8]); flags, fragoff = fo >> 13, fo & 0x1fff
+        proto, src, dst = ip[9], be(ip[12:16]), be(ip[16:20])
+        if ver != 4 or ihl < 5 or tot < ihl * 4 or ihl * 4 > len(ip): return ph, False
+        frag = bool(flags & 1) or fragoff != 0      # MF set or offset non-zero; the reserved bit and DF say nothing about fragmentation
+        pay = ip[ihl * 4:min(tot, len(ip))]
+        l4, ok = None, True
+        if fragoff == 0:
+            if proto in (6, 17):
+                need = 8 if proto == 17 else 20
+                if len(pay) >= need:
+                    l4 = ["p", be(pay[0:2]), be(pay[2:4])]
+                    if proto == 6:
+                        doff = (pay[12] >> 4) * 4
+                        if doff < 20 or doff > len(pay) or any(x != 1 for x in pay[20:doff]): l4, ok = None, frag
+                else: ok = frag
+            elif proto == 1:
+                if len(pay) >= 4: l4 = ["i", pay[0], pay[1]]
+                else: ok = frag
+        ph["l3"] = ["ip", src, dst, proto, tos, frag, l4]
+        return ph, ok
+    if t == 0x0806:
+        a = fr[off:]
+        if len(a) < 28 or be(a[0:2]) != 1 or be(a[2:4]) != 0x0800 or a[4] != 6 or a[5] != 4: return ph, False
+        ph["l3"] = ["arp", be(a[6:8]), be(a[14:18]), be(a[24:28])]
+        return ph, True
+    return ph, True
+
+
 class C03(Check):
     id = "C03"
     prop_module = "PoxModel.Properties.C03"
@@ -134,12 +200,14 @@ class C03(Check):
                 "Pox.C03.table_sorted_repaired", "Pox.C03.subsumes_iff_repaired", "Pox.C03.flow_from_packet_matches_repaired",
                 "Pox.C03.flow_from_packet_exact_repaired", "Pox.C03.flowOk_repaired",
                 "Pox.C03.matches_iff_full", "Pox.C03.extract_ok_full", "Pox.C03.lookup_spec_wire_full", "Pox.C03.history_lookup_wire_full", "Pox.C03.subsumes_iff_full",
-                "Pox.C03.flow_from_packet_full", "Pox.C03.flow_from_packet_exact_full", "Pox.C03.flowOk_full",
+                "Pox.C03.flow_from_packet_full", "Pox.C03.flow_from_packet_exact_full",
+                "Pox.C03.frame_complete_regular", "Pox.C03.extract_ok_bytes_repaired", "Pox.C03.lookup_spec_bytes_repaired", "Pox.C03.matches_iff_bytes_full",
+                "Pox.C03.lookup_spec_bytes_full", "Pox.C03.flowOk_full",
                 "Pox.C03.history_sorted", "Pox.C03.step_preserves_sorted", "Pox.C03.add_entry_total_by", "Pox.C03.add_position",
                 "Pox.C03.removal_sublist", "Pox.C03.history_exact_first", "Pox.C03.history_lookup", "Pox.C03.history_lookup_wire",
                 "Pox.C03.matches_iff_v", "Pox.C03.extract_ok_v", "Pox.C03.exact_iff_v", "Pox.C03.subsumes_iff_v",
                 "Pox.C03.flow_from_packet_matches_v", "Pox.C03.spec_frags_irrelevant", "Pox.C03.subsumes_iff_forall",
-                "Pox.C03.irregular_l4_witness", "Pox.C03.irregular_l3_witness",
+                "Pox.C03.irregular_l4_witness", "Pox.C03.irregular_l3_witness", "Pox.C03.extract_rarp_defect",
                 "Pox.C03.table_sorted", "Pox.C03.add_entry_total", "Pox.C03.exact_outranks", "Pox.C03.lookup_spec", "Pox.C03.miss_iff",
                 "Pox.C03.extract_ok", "Pox.C03.matches_iff", "Pox.C03.lookup_spec_wire", "Pox.C03.miss_iff_wire", "Pox.C03.flow_from_packet_matches",
                 "Pox.C03.flow_from_packet_hit", "Pox.C03.flow_from_packet_exact_iff", "Pox.C03.flow_from_packet_exact", "Pox.C03.subsumes_iff",
@@ -154,7 +222,9 @@ class C03(Check):
     trusted_base = ["models Model/Match.lean, Model/FlowTable.lean, Model/MatchV.lean hand-written from ofp_match / FlowTable; tied by this correspondence run",
                     "Spec/OF10Match.lean: hand transcription of OpenFlow 1.0 §3.4 (12-tuple, Figure 4 header parsing, Table 3, prefix wildcards, exact-match priority "
                     "read under the prerequisite rule: Spec.exactSig); its Python twin in harness/c03.py is cross-checked against it on every case",
-                    "harness/c03.py phdr_of: reads the header tuple off the real parsed packet (packet parser = C14/C15)",
+                    "Spec/OF10Frame.lean: hand transcription of the frame formats (Ethernet II / 802.2 SNAP, 802.1Q tag type 0x8100 only, IPv4 flags / IHL, ARP, "
+                    "TCP / UDP / ICMP) from bytes to the frame description, with its completeness rule; Python twin raw_phdr cross-checked through hdr / spec on every case",
+                    "harness/c03.py phdr_of: incomplete frames only — header tuple read off the real parsed packet (packet parser = C14/C15)",
                     "harness/c03.py detect_variant: which of the proposed repairs D26/D37/D38 the tree has is read off the source (AST shapes, unknown shape = error); "
                     "the driver then evaluates Model/MatchV at that variant and the correspondence validates the choice"]
     assumptions = ["frames whose L3/L4 header is truncated or malformed are compared model-vs-code only: the standard says nothing about them",
@@ -247,6 +317,12 @@ class C03(Check):
         if hit and pme.nw_tos == 0: tos = True
         elif not hit and pme.nw_tos == 2: tos = False
         else: raise RuntimeError("ToS witness: match=%r extracted nw_tos=%r (neither known behaviour)" % (hit, pme.nw_tos))
+        # RARP (0x8035) parsed with the library's ARP class: does from_packet take the ARP fields from it (fixes/C03_rarp_not_arp.diff: no)?
+        rarp = bytes.fromhex("000000000002" "000000000001" "8035" "0001" "0800" "06" "04" "0003" "000000000001" "0a000001" "000000000000" "0a000002")
+        pmr = of.ofp_match.from_packet(self.pkt.ethernet(rarp), 1, spec_frags=True)
+        if pmr.nw_proto == 3 and pmr.nw_src is not None: self.rarp_as_arp = True
+        elif pmr.nw_proto is None and pmr.nw_src is None and pmr.nw_dst is None: self.rarp_as_arp = False
+        else: raise RuntimeError("from_packet on a RARP frame: nw_proto=%r nw_src=%r (neither known behaviour)" % (pmr.nw_proto, pmr.nw_src))
         return {"arpLow8": arp, "prereqExact": bool(nwp), "exactSig": bool(m2.is_exact), "tosDscp": tos}
 
     def shape_variant(self):
@@ -263,7 +339,7 @@ class C03(Check):
             out[flag] = None
             if fn not in fns: continue
             if flag == "arpLow8":            # the body of `elif isinstance(p, arp):`
-                node = [n for n in ast.walk(fns[fn]) if isinstance(n, ast.If) and ast.unparse(n.test) == "isinstance(p, arp)"]
+                node = [n for n in ast.walk(fns[fn]) if isinstance(n, ast.If) and ast.unparse(n.test).startswith("isinstance(p, arp)")]
                 if len(node) != 1: continue
                 text = "\n".join(ast.unparse(x) for x in node[0].body)
             else:
@@ -283,7 +359,7 @@ class C03(Check):
 
     def extra_evidence(self):
         return {"code_variant": dict(zip(["arpLow8", "prereqExact", "exactSig", "tosDscp"], self.variant)), "code_variant_decided_by": self.variant_source,
-                "strict_test_both_ways": self.strict_both_ways}
+                "strict_test_both_ways": self.strict_both_ways, "rarp_parsed_as_arp_feeds_from_packet": self.rarp_as_arp}
 
     def compute_anchors(self):
         import ast, os
@@ -338,6 +414,24 @@ class C03(Check):
             wf = wf and p.parsed and t == 0x0806
         elif t in (0x0800, 0x0806): wf = False             # promised L3 header missing
         return ph, (2 if wf else 1 if l2[0] else 0)
+
+    def view(self, hexframe):
+        """description of the frame given to model and standard + 'wf': read off the BYTES for complete frames — the packet library's
+        idea of the frame is not consulted, so a library that takes the frame for something else is seen to disagree —, the library's
+        parse only for incomplete ones (model-vs-code there; the standard is silent on the missing part)"""
+        ph, ok = raw_phdr(bytes.fromhex(hexframe))
+        if ok: return ph, 2
+        return self.phdr_of(self.parse(hexframe))
+
+    def mview(self, hexframe):
+        """the same as sent to the driver: the bytes themselves (hex) for complete frames — `Spec.Frame.parse` reads them there"""
+        ph, ok = raw_phdr(bytes.fromhex(hexframe))
+        if ok and self.rarp_as_arp and spec_headers(ph, 0)[DL_TYPE - 1] == 0x8035:
+            # open finding extract:arp-fields-on-rarp (Lean: extract_rarp_defect): the tree takes ARP fields from what the library parses
+            # with its arp class behind type 0x8035.  The model mirrors that when it is given the library's (irregular) description;
+            # the standard still gets the bytes' (`view`), so the oracle reports the deviation.
+            return self.phdr_of(self.parse(hexframe))[0]
+        return hexframe if ok else self.phdr_of(self.parse(hexframe))[0]
 
     def views_of(self, m):
         """[wildcards, 12 attribute views] of a real ofp_match"""
@@ -403,7 +497,7 @@ class C03(Check):
         k = case["kind"]
         if k == "pairs":
             e = self.parse(case["frame"])
-            ph, wf = self.phdr_of(e)
+            ph, wf = self.view(case["frame"])
             if case.get("via_packet_in"):       # from_packet's other entry: an ofp_packet_in carrying the frame
                 pm = self.of.ofp_match.from_packet(self.of.ofp_packet_in(in_port=case["port"], data=bytes.fromhex(case["frame"])), spec_frags=True)
             else:
@@ -455,7 +549,7 @@ class C03(Check):
             for n, fr in enumerate(case["frames"]):
                 if fr["frame"] not in pk: pk[fr["frame"]] = self.parse(fr["frame"])
                 e = pk[fr["frame"]]             # the same packet object again when a frame is looked up again
-                ph, wf = self.phdr_of(e)
+                ph, wf = self.view(fr["frame"])
                 phs.append(ph); wfs.append(wf)
                 if twin is not None:
                     tb = ftb.entry_for_packet(e, fr["port"]); twin.append(None if tb is None else idxb.get(id(tb), "foreign-object"))
@@ -490,7 +584,7 @@ class C03(Check):
                     "fresh": fresh, "twin": twin, "twin_fresh": twin_fresh}
         if k == "selfflow":
             e = self.parse(case["frame"])
-            ph, wf = self.phdr_of(e)
+            ph, wf = self.view(case["frame"])
             m = self.of.ofp_match.from_packet(e, case["port"], spec_frags=case["sf"])
             if case.get("rawmac"): m.dl_src = e.src.toRaw(); m.dl_dst = e.dst.toRaw()   # addresses given as raw bytes
             for i in case.get("blank", ()): setattr(m, F[i], None)            # the controller wildcards some fields again
@@ -526,7 +620,7 @@ class C03(Check):
                     elif op[0] == "lookup":
                         if op[1] not in pk: pk[op[1]] = self.parse(op[1])
                         e = pk[op[1]]
-                        ph, wf = self.phdr_of(e)
+                        ph, wf = self.view(op[1])
                         pm = self.of.ofp_match.from_packet(self.parse(op[1]), op[2], spec_frags=True)
                         present = [i for i in ids() if i in ents]
                         looks.append({"phdr": ph, "wf": wf, "present": present,
@@ -553,8 +647,7 @@ class C03(Check):
     def _model_request(self, case):
         k = case["kind"]
         if k == "pairs":
-            e = self.parse(case["frame"])
-            ph, _ = self.phdr_of(e)
+            ph = self.mview(case["frame"])
             ms = []
             for s in case["matches"]:
                 if "w" in s: ms.append({"rec": unpack_rec(bytes.fromhex(s["w"])), "wire": True})
@@ -571,11 +664,10 @@ class C03(Check):
         if k == "table":
             frames = []
             for fr in case["frames"]:
-                ph, _ = self.phdr_of(self.parse(fr["frame"]))
-                frames.append({"phdr": ph, "port": fr["port"]})
+                frames.append({"phdr": self.mview(fr["frame"]), "port": fr["port"]})
             return {"op": "table", "entries": [[p, unpack_rec(bytes.fromhex(w))] for p, w in case["entries"]], "frames": frames}
         if k == "selfflow":
-            return {"op": "selfflow", "phdr": self.phdr_of(self.parse(case["frame"]))[0], "port": case["port"], "swport": case["swport"], "sf": bool(case["sf"]),
+            return {"op": "selfflow", "phdr": self.mview(case["frame"]), "port": case["port"], "swport": case["swport"], "sf": bool(case["sf"]),
                     "blank": list(case.get("blank", ()))}
         if k == "tableops":
             ops = []
@@ -585,7 +677,7 @@ class C03(Check):
                     while w.startswith("@"): w = [o for o in case["ops"] if o[0] == "add" and o[1] == int(w[1:])][0][3]
                     ops.append(["add", op[1], op[2], unpack_rec(bytes.fromhex(w)), op[4], op[5], op[6]])
                 elif op[0] == "rm_match": ops.append(["rm_match", unpack_rec(bytes.fromhex(op[1])), op[2], bool(op[3])])
-                elif op[0] == "lookup": ops.append(["lookup", self.phdr_of(self.parse(op[1]))[0], op[2]])
+                elif op[0] == "lookup": ops.append(["lookup", self.mview(op[1]), op[2]])
                 else: ops.append(list(op))
             return {"op": "tableops", "ops": ops, "sm": self.strict_both_ways}
 
@@ -698,6 +790,14 @@ class C03(Check):
             return None
         if k == "selfflow":
             if obs["wf"] < 2: return None
+            if case["sf"] and case["port"] is not None and not case.get("rawmac"):
+                # the controller-side extraction is held to the standard too (fields the controller blanked again are not looked at)
+                hc = spec_headers(obs["phdr"], case["port"])
+                for i, name in enumerate(F[1:]):
+                    if (i + 1) in case.get("blank", ()): continue
+                    got, want = obs["m"][i + 1], hc[i]
+                    if (got is None and want != 0) or (got is not None and got != want):
+                        return "extract:%s=%s, standard says %d" % (name, got, want)
             h = spec_headers(obs["phdr"], case["swport"])
             want = spec_match(obs["wire"], h)
             if bool(obs["hit"]) != want:
@@ -792,9 +892,11 @@ class C03(Check):
             name = failure.split(":", 1)[1].split(" ")[0].split("=")[0]
             ph = obs.get("phdr") or {}
             l3, l = ph.get("l3"), ph.get("llc")
+            if name in ("nw_proto", "nw_src", "nw_dst") and ph and spec_headers(ph, 0)[DL_TYPE - 1] == 0x8035: return "extract:arp-fields-on-rarp"
             if l3 is not None and l3[0] == "arp" and l3[1] > 255 and name in ("nw_proto", "nw_src", "nw_dst"): return "extract:arp-opcode-above-255"
             if name == "nw_tos" and l3 is not None and l3[0] == "ip" and l3[4] & 3: return "extract:nw_tos-carries-ecn-bits"
-            if l is not None and l[0] == 0: return "extract:snap-not-recognised"
+            got = obs.get("pm") or obs.get("m") or []
+            if l is not None and l[0] == 0 and len(got) > DL_TYPE and got[DL_TYPE] == 0x05ff: return "extract:snap-not-recognised"
             return "extract:" + name
         if head == "selfflow": return "selfflow:miss"
         if head == "table": return "table:" + failure.rsplit("why=", 1)[1]
@@ -905,7 +1007,7 @@ class C03(Check):
         return [self.frame(rng, k) for k in self.FIXED]
 
     def headers_of(self, hexframe, port):
-        ph, wf = self.phdr_of(self.parse(hexframe))
+        ph, wf = self.view(hexframe)
         return ph, wf, spec_headers(ph, port)
 
     # ---------------------------------------------------------------- matches at / near a frame
@@ -996,6 +1098,7 @@ class C03(Check):
         cases += list(self.lookup_seq_cases(rng))
         cases += self.sandwich_cases()
         cases += self.sweep_pairs(rng)
+        cases += self.byte_cases(rng)
         for i in range(8):
             cases.append(self.tableops_case(rng, frames, nops=[4, 10, 25, 60][i % 4]))
         for fr in frames:
@@ -1131,6 +1234,146 @@ class C03(Check):
         if via_switch: c["via_switch"] = True
         if exact_class: c["class"] = "exact"
         return c
+
+    # ---------------------------------------------------------------- frames built byte by byte (the packet library is not involved)
+    @staticmethod
+    def raw_ip(proto, flags=0, fragoff=0, ihl=5, tos=0, src=0x0a000001, dst=0x0a000002, a=4000, b=80, opts=None, tcpoff=5, totdelta=0, pad=b""):
+        """IPv4 datagram: flags = the three flag bits (4 reserved, 2 DF, 1 MF), 13-bit fragment offset, IHL with options, total length
+        off by `totdelta` from what is there, trailing `pad`; behind it a TCP (data offset `tcpoff`, NOP options) / UDP / ICMP header"""
+        if proto == 6: l4 = struct.pack("!HHLLBBHHH", a, b, 1, 0, (tcpoff & 15) << 4, 0x10, 1, 0, 0) + b"\1" * (4 * max(0, tcpoff - 5)) + b"xy"
+        elif proto == 17: l4 = struct.pack("!HHHH", a, b, 12, 0) + b"abcd"
+        elif proto == 1: l4 = struct.pack("!BBH", a & 0xff, b & 0xff, 0) + b"\0" * 8
+        else: l4 = struct.pack("!HH", a, b) + b"\0" * 6
+        opts = (b"\1" * (4 * max(0, ihl - 5))) if opts is None else opts
+        tot = 20 + len(opts) + len(l4) + totdelta
+        return (struct.pack("!BBHHHBBH", 0x40 | (ihl & 15), tos, tot & 0xffff, 7, ((flags & 7) << 13) | (fragoff & 0x1fff), 64, proto, 0) +
+                src.to_bytes(4, "big") + dst.to_bytes(4, "big") + opts + l4 + pad)
+
+    @staticmethod
+    def raw_arp(op=1, spa=0x0a000001, tpa=0x0a000002, htype=1, ptype=0x0800, hlen=6, plen=4):
+        return struct.pack("!HHBBH", htype, ptype, hlen, plen, op) + b"\0\0\0\0\0\x11" + spa.to_bytes(4, "big") + b"\0" * 6 + tpa.to_bytes(4, "big")
+
+    @staticmethod
+    def raw_eth(typ, payload, src=0x000000000011, dst=0x000000000022):
+        """typ None: an 802.3 length field (the payload's length)"""
+        return (dst.to_bytes(6, "big") + src.to_bytes(6, "big") + struct.pack("!H", len(payload) if typ is None else typ) + payload).hex()
+
+    @staticmethod
+    def raw_tag(typ, payload, vid=5, pcp=3, cfi=0):
+        return struct.pack("!HH", (pcp << 13) | (cfi << 12) | vid, typ) + payload
+
+    @staticmethod
+    def raw_llc(payload, dsap=0xaa, ssap=0xaa, ctl=3, oui=0, typ=0x0800):
+        return bytes([dsap, ssap, ctl]) + oui.to_bytes(3, "big") + struct.pack("!H", typ) + payload
+
+    # EtherTypes: the tag types of 802.1Q / 802.1ad / the pre-standard QinQ values, the 802.3 length boundary, the types with L3 meaning for
+    # OpenFlow and their neighbours, and — read from the module at run time — every type the packet library has a constant or a parser for
+    ETYPES = [0x8100, 0x88a8, 0x9100, 0x9200, 0x9300, 0x80ff, 0x8101, 0x88a7, 0x88a9, 0x90ff, 0x9101, 0x05dc, 0x05ff, 0x0600, 0x0601, 0x0000, 0x002e,
+              0x0800, 0x0801, 0x07ff, 0x0806, 0x0805, 0x0807, 0x8035, 0x86dd, 0x8847, 0x8848, 0x88cc, 0x888e, 0x88e7, 0x22f3, 0xffff, 0xfffe]
+
+    def etypes(self):
+        eth = self.pkt.ethernet
+        lib = [v for k, v in vars(eth).items() if k.endswith("_TYPE") and isinstance(v, int)] + [k for k in getattr(eth, "type_parsers", {}) if isinstance(k, int)]
+        out = list(self.ETYPES)
+        for t in sorted(set(lib)):
+            for x in (t, t - 1, t + 1):
+                if 0 <= x <= 0xffff and x not in out: out.append(x)
+        return out
+
+    def byte_frames(self):
+        """[(family, hex)]: frames in which the bytes the packet library has to interpret take every value of their small domains —
+        IP flag bits x fragment offsets x protocols, IHL / options / total length, TCP data offset, every EtherType of `etypes()` as outer
+        type, behind an 802.1Q tag and inside SNAP, in front of tag-like / IP / ARP / LLC-like payloads, LLC / SNAP header forms"""
+        out = []
+        ip, arp, eth, tag, llc = self.raw_ip, self.raw_arp, self.raw_eth, self.raw_tag, self.raw_llc
+        ab = {6: (4000, 80), 17: (4000, 5060), 1: (8, 0), 47: (1, 2)}
+        for flags in range(8):
+            for fo in (0, 1, 185, 8191):
+                for proto in (6, 17, 1, 47):
+                    for ihl in ((5, 6) if fo in (0, 185) else (5,)):
+                        a, b = ab[proto]
+                        out.append(("ipflags", eth(0x0800, ip(proto, flags, fo, ihl, a=a, b=b))))
+            out.append(("ipflags", eth(0x8100, tag(0x0800, ip(17, flags, 0, a=7, b=9)))))
+            out.append(("ipflags", eth(None, llc(ip(6, flags, 0, a=7, b=9)))))
+        for ihl in range(5, 16):
+            for proto in (6, 17, 1):
+                a, b = ab[proto]
+                out.append(("ihl", eth(0x0800, ip(proto, 0, 0, ihl, a=a, b=b))))
+                o = (b"\x94\x04\0\0" + b"\x07\x07\x04" + b"\0" * 4 + b"\0" + b"\x44\x04\x05\0" * 9)[:4 * (ihl - 5)]
+                out.append(("ihl", eth(0x0800, ip(proto, 2, 0, ihl, a=a, b=b, opts=o))))
+        for proto in (6, 17, 1):
+            a, b = ab[proto]
+            for td, pad in ((0, b"\0" * 6), (-2, b""), (4, b""), (-4, b"\0" * 18)):
+                out.append(("iplen", eth(0x0800, ip(proto, 0, 0, 5, a=a, b=b, totdelta=td, pad=pad))))
+                out.append(("iplen", eth(0x0800, ip(proto, 0, 0, 7, a=a, b=b, totdelta=td, pad=pad))))
+        for bad in (dict(ihl=4), dict(ihl=0), dict(ihl=15, opts=b"\1" * 8), dict(totdelta=-30)):
+            out.append(("iplen", eth(0x0800, ip(17, 0, 0, **bad))))
+        for off in range(0, 16):
+            out.append(("tcpoff", eth(0x0800, ip(6, 2, 0, 5, tcpoff=off))))
+        udp = ip(17, 2, 0, a=4000, b=5060)
+        for t in self.etypes():
+            out.append(("etype", eth(t, tag(0x0800, udp))))                 # a tag-like payload: only 0x8100 makes it a tag
+            out.append(("etype", eth(t, udp)))                             # an IP datagram: only 0x0800 makes it one
+            out.append(("etype", eth(t, arp())))                           # an ARP packet: only 0x0806 makes it one
+            out.append(("etype", eth(t, llc(udp))))                        # a SNAP header: only behind a length
+            out.append(("etype", eth(0x8100, tag(t, udp))))                # behind the tag
+            out.append(("etype", eth(0x8100, tag(t, tag(0x0800, udp)))))   # a second tag-like header behind the tag
+            out.append(("etype", eth(0x8100, tag(t, arp(op=2)))))
+            out.append(("etype", eth(None, llc(udp, typ=t))))              # inside SNAP
+            out.append(("etype", eth(None, llc(tag(0x0800, udp), typ=t))))
+        for dsap in (0xaa, 0xab, 0x42, 0xfe, 0):
+            for ssap in (0xaa, 0xab, 0x42, 0):
+                for ctl in (3, 0x13, 0, 1):
+                    if (dsap, ssap) != (0xaa, 0xaa) and ctl not in (3, 0): continue
+                    for oui in ((0, 0x00000c, 0x0080c2, 0x010000) if (dsap, ssap, ctl) == (0xaa, 0xaa, 3) else (0,)):
+                        out.append(("llc", eth(None, llc(udp, dsap, ssap, ctl, oui))))
+        for n in (0, 1, 2, 3, 7):                  # length field with less than an LLC / SNAP header behind it
+            out.append(("llc", eth(n, llc(b"")[:n])))
+        return out
+
+    def byte_cases(self, rng):
+        """the frames of `byte_frames` in every role: extraction + matches on the fields their bytes decide, the flow a controller builds
+        from them, and lookups in tables whose entries discriminate on those fields (several frames of a family on one table, in sequence)"""
+        cases, fam = [], {}
+        disc = [DL_TYPE, DL_VLAN, PCP, PROTO, NW_SRC, NW_DST, TP_SRC, TP_DST]
+        for n, (family, fr) in enumerate(self.byte_frames()):
+            try: self.parse(fr)
+            except Exception: continue             # parser robustness is C15's subject
+            port = 1 + n % 4
+            ph, wf, h = self.headers_of(fr, port)
+            recs = [self.near_rec(rng, h, ph, [], 0, 0), self.only_field_rec(h, [])]
+            for f in disc:
+                r = self.only_field_rec(h, [f]); recs.append(r)
+                r2 = list(r); r2[f] = (r2[f] + 1) & FIELD_MAX[f]; recs.append(r2)
+            recs.append(self.only_field_rec(h, [TP_SRC, TP_DST])); recs.append(self.only_field_rec(h, [DL_VLAN, DL_TYPE]))
+            for c in self.batches(fr, port, recs, ph, tag="bytes " + family): cases.append(c)
+            if n % 3 == 0:
+                cases.append({"kind": "selfflow", "frame": fr, "port": port, "swport": port, "sf": True, "tag": "bytes " + family})
+            if wf == 2: fam.setdefault(family, []).append((fr, port, h))
+        for family in sorted(fam):
+            fs = fam[family]
+            for i in range(0, len(fs), 4):
+                grp = fs[i:i + 4]
+                ents = []
+                for j, (fr, port, h) in enumerate(grp):
+                    ents.append([100 + 10 * j, pack_rec(self.only_field_rec(h, [DL_TYPE, DL_VLAN, TP_SRC, TP_DST])).hex()])
+                    ents.append([60 + j, pack_rec(self.only_field_rec(h, [[DL_TYPE], [DL_VLAN], [PROTO], [NW_DST]][(i // 4 + j) % 4])).hex()])
+                    if h[DL_TYPE - 1] == 0x0800 and h[PROTO - 1] in (1, 6, 17) and j % 2 == 0:
+                        ents.append([5, pack_rec([0] + list(h)).hex()])                                       # exact entry
+                ents.append([1, pack_rec(self.only_field_rec(grp[0][2], [])).hex()])                          # catch-all
+                if (i // 4) % 2: ents.reverse()
+                order = [{"frame": fr, "port": port} for fr, port, _ in grp]
+                c = {"kind": "table", "entries": ents, "frames": order + order[::-1][1:], "seq": True, "tag": "bytes " + family}
+                if (i // 4) % 3 == 0: c["via_switch"] = True
+                elif (i // 4) % 3 == 1: c["twin"] = True
+                cases.append(c)
+                if (i // 4) % 4 == 0:
+                    ops = [["add", j, p, w, 0, 0, 1000] for j, (p, w) in enumerate(ents)]
+                    for fr, port, _ in grp: ops.append(["lookup", fr, port])
+                    ops.append(["rm_match", ents[0][1], ents[0][0], True])
+                    for fr, port, _ in grp: ops.append(["lookup", fr, port])
+                    cases.append({"kind": "tableops", "ops": ops, "tag": "bytes " + family})
+        return cases
 
     # ---------------------------------------------------------------- sequences of lookups on one table
     def build_frame(self, d):
